@@ -502,6 +502,8 @@ def run_native_once(oid, case_idx, inputs=None, seed=None):
 
 
 def run_native_unit(oid, case_idx, tier, seed):
+    import sys as _sys
+    _sys.set_int_max_str_digits(0)
     """bounded stand-in: sample (or enumerate) inputs natively. returns dict"""
     ob = REGISTRY[oid]
     n = ob.samples if tier == 'quick' else ob.samples * 5
